@@ -5,7 +5,7 @@ CONSTANTS
   MaxSw = 1
   LitToks = {"-q", "--help", "-V", "-vv", "--no-ansi", "-n"}
   MaxLit = 1
-  Behs = {"ok", "code", "raise"}
+  Behs = {"ok", "code"}
   Streams = {"none", "both", "out"}
 INVARIANT H_inscope
 INVARIANT P_quiet
